@@ -239,27 +239,18 @@ def guarded(ck, fi, cfg, targets, atom_pred, rule, key, ok_msg, bad_msg, require
 
 def roots_with_closure(fi: FuncInfo, e: ast.AST) -> set:
     """Defs.roots of `e` in `fi`; names that are free in `fi` are followed into the enclosing functions (closures)."""
-    out = set()
-    cur, todo = fi, [e]
+    out = set(defs_of(fi).roots(e))
     seen = set()
-    d = defs_of(cur)
-    for r in d.roots(e):
-        out.add(r)
-    frontier = {r for r in out if r.isidentifier()}
     cur = getattr(fi, "parent", None)
-    while cur is not None and isinstance(getattr(cur, "node", None), (ast.FunctionDef, ast.AsyncFunctionDef)) and frontier:
+    while cur is not None and isinstance(getattr(cur, "node", None), (ast.FunctionDef, ast.AsyncFunctionDef)):
         dp = defs_of(cur)
-        nxt = set()
-        for nm in list(frontier):
-            if nm in seen:
-                continue
-            seen.add(nm)
-            if nm in dp.defs:
-                rs = dp.roots(ast.Name(id=nm, ctx=ast.Load()))
-                out |= rs
-                nxt |= {r for r in rs if r.isidentifier()}
-        frontier = (frontier | nxt) - seen if nxt else set()
-        frontier = {r for r in out if r.isidentifier()} - seen
+        changed = True
+        while changed:
+            changed = False
+            for nm in [r for r in out if r.isidentifier() and r not in seen and r in dp.defs]:
+                seen.add(nm)
+                out |= set(dp.roots(ast.Name(id=nm, ctx=ast.Load())))
+                changed = True
         cur = getattr(cur, "parent", None)
     return out
 
@@ -282,3 +273,44 @@ class _Inlined:
 def inlined(ix, fi, skip=()):
     from . import shape
     return _Inlined(fi, shape.inline_helpers(ix, fi, skip=skip))
+
+
+_FIND_CACHE: dict = {}
+
+
+def find(ix, fi, pattern: str, skip=(), inline: bool = True) -> list:
+    """Nodes of function `fi` that match `pattern` (shape.match syntax: `_X` wildcards, `*_R` / `**_K` rest
+    wildcards in calls) as written, after resolving local temporaries, or after expanding module constants and
+    single-return helpers; value-less private helpers and tail calls are inlined first and dead branches
+    (`if False:`) are ignored.  A rule that uses this is insensitive to the names of locals, to hoisted or inlined
+    temporaries and to extracted helpers, and sensitive to the operation itself.  Returns [(node, bindings, fn)]."""
+    from . import shape
+    key = (id(fi), tuple(skip), inline)
+    if key not in _FIND_CACHE:
+        fn = shape.inline_helpers(ix, fi, skip=skip) if inline else shape._set_parents(ast.parse(ast.unparse(fi.node)).body[0])
+        _FIND_CACHE[key] = fn
+    fn = _FIND_CACHE[key]
+    pat = ast.parse(pattern, mode="eval").body
+    out = []
+    for x in ast.walk(fn):
+        if not isinstance(x, ast.expr) or isinstance(x, ast.Name):
+            continue
+        if type(x) is not type(pat) and not isinstance(x, ast.Call):
+            continue
+        b = None
+        for form in (lambda: x, lambda: shape.resolve(x, fn), lambda: shape.deep(ix, fi, x, fn)):
+            try:
+                cand = form()
+            except RecursionError:
+                continue
+            if type(cand) is type(pat):
+                b = shape.match(pat, cand)
+                if b is not None:
+                    break
+        if b is not None and not shape.dead(x, fn):
+            out.append((x, b, fn))
+    return out
+
+
+def has(ix, fi, pattern: str, skip=(), at_least: int = 1) -> bool:
+    return len(find(ix, fi, pattern, skip=skip)) >= at_least
